@@ -110,6 +110,7 @@ def configs(tier):
                     if gran and (transp == "diag" or init == "nonempty"):
                         continue
                     out.append({"kind": "xor_ilvt", "depth": depth, "width": width, "nr": nr, "nw": nw, "gran": gran, "transp": transp, "init": init})
+                    out.append({"kind": "onehot_ilvt", "depth": depth, "width": width, "nr": nr, "nw": nw, "gran": gran, "transp": transp, "init": init})
     return out
 
 
@@ -198,7 +199,96 @@ def core_invariant(cfg, prod, hw, corr):
         Hx0, Hx1 = xor_invariant(cfg, inner, loc["ilvt_read_ports"], prod.tr, prod.table, hw, set())
         Ho0, Ho1 = ilvt_outer_invariant(cfg, prod, hw)
         return z3.And(Hx0, Ho0), z3.And(Hx1, Ho1)
+    if cfg["kind"] == "onehot_ilvt":
+        loc = hw.rec.locals_of(prod.impl)
+        inner = loc["ilvt"]
+        Hi0, Hi1 = onehot_table_invariant(cfg, inner, loc["ilvt_read_ports"], prod, hw)
+        Ho0, Ho1 = ilvt_outer_invariant(cfg, prod, hw)
+        return z3.And(Hi0, Ho0), z3.And(Hi1, Ho1)
     raise NotImplementedError(cfg["kind"])
+
+
+def onehot_table_invariant(cfg, inner, inner_rports, prod, hw):
+    """H for OneHotCodedILVT against the ghost table T: bank T[a]'s (effective) code marks it newer than every other
+    bank at row a; the feedback read registers hold the other banks' codes at the pending write address; the read side
+    reconstructs each bank's code at the registered read address; the one-hot output names the ghost table's
+    registered read value."""
+    ts = hw.ts
+    depth = inner.depth
+    W, R = len(inner.write_ports), len(inner.read_ports)
+    loc = hw.rec.locals_of(inner)
+    named = named_submodules(loc["m"])
+    banks = [named[f"bank_{k}"] for k in range(W)]
+    C_mem = [ts.memory_of(banks[k].read_ports[0].data) for k in range(W)]
+    e1_s = [banks[k].write_ports[0].en for k in range(W)]
+    a1_s = [banks[k].write_ports[0].addr for k in range(W)]
+    d1_s = loc["write_data_sync"]
+    a2_s, e2_s, x2_s = loc["write_addr_bypass"], loc["write_en_bypass"], loc["write_data_bypass"]
+    ra_s, ren_s = loc["read_addr_bypass"], loc["read_en_bypass"]
+    fb = {}
+    for j in range(W):
+        for k in range(W):
+            if j != k:
+                port = banks[j].read_ports[(R + k - 1) if j < k else (R + k)]
+                fb[(j, k)] = ts.readport_key(port.data)
+    rp_read = [[ts.readport_key(banks[k].read_ports[r].data) for r in range(R)] for k in range(W)]
+    table_mem = ts.memory_of(prod.tr[0].data)
+    table_rp = [ts.readport_key(p.data) for p in prod.tr]
+    zero_a = z3.BitVecVal(0, 1)
+    bitv = lambda x, i: z3.Extract(i, i, x)
+
+    def newer(code, k, i):
+        """bank k is marked newer than bank i (codes: list of per-bank code terms)"""
+        if i < k:
+            return bitv(code[k], i) == ~bitv(code[i], k - 1)
+        return bitv(code[k], i - 1) == bitv(code[i], k)
+
+    def H(nxt):
+        st = ts.next if nxt else ts.state
+        g = (lambda s: hw.nxt(s)) if nxt else (lambda s: hw.sig(s))
+        gc = (lambda s: ts.primed(hw.sig(s))) if nxt else (lambda s: hw.sig(s))
+        rows = lambda midx: ts.mem_next_rows[midx] if nxt else ts.mem_rows(midx)
+        inr = lambda a: z3.ULT(N(a), N(depth))
+        e1 = [g(e1_s[k]) == 1 for k in range(W)]
+        a1 = [g(a1_s[k]) if len(a1_s[k]) else zero_a for k in range(W)]
+        low = lambda x: z3.Extract(W - 2, 0, x)  # the code signals are declared W bits wide, the banks store W-1
+        d1 = [low(gc(d1_s[k])) for k in range(W)]
+        C = [rows(C_mem[k]) for k in range(W)]
+        T = rows(table_mem)
+        cs = []
+        for k in range(W):
+            cs.append(inr(a1[k]))
+            for j in range(W):
+                if j != k:
+                    cs.append(z3.Implies(e1[k], st[fb[(j, k)]] == rd(C[j], a1[k])))
+                if j < k:
+                    cs.append(z3.Not(z3.And(e1[j], e1[k], a1[j] == a1[k])))
+        for k in range(W):
+            a2 = g(a2_s[k]) if len(a2_s[k]) else zero_a
+            cs.append(z3.Implies(g(e2_s[k]) == 1, z3.And(inr(a2), low(g(x2_s[k])) == rd(C[k], a2))))
+        for a in range(depth):
+            eff = [z3.If(z3.And(e1[k], a1[k] == a), d1[k], C[k][a]) for k in range(W)]
+            for t in range(W):
+                cs.append(z3.Implies(N(T[a]) == t, z3.And(*[newer(eff, t, j) for j in range(W) if j != t])))
+            cs.append(z3.ULT(N(T[a]), N(W)))
+        for r in range(R):
+            ren = g(ren_s[r]) == 1
+            ra = g(ra_s[r]) if len(ra_s[r]) else zero_a
+            cs.append(z3.Implies(ren, inr(ra)))
+            for k in range(W):
+                a2 = g(a2_s[k]) if len(a2_s[k]) else zero_a
+                byp = z3.If(z3.And(ra == a2, ren, g(e2_s[k]) == 1), low(g(x2_s[k])), st[rp_read[k][r]])
+                cs.append(z3.Implies(ren, byp == rd(C[k], ra)))
+                cs.append(z3.Implies(ren, st[rp_read[k][r]] == rd(C[k], ra)))  # the second bypass stage is redundant
+            out_inner = gc(inner_rports[r].data)
+            trp = st[table_rp[r]]
+            onehot = z3.BitVecVal(0, W)
+            for t in reversed(range(W)):
+                onehot = z3.If(N(trp) == t, z3.BitVecVal(1 << t, W), onehot)
+            cs.append(out_inner == onehot)
+        return z3.And(*cs)
+
+    return H(False), H(True)
 
 
 def ilvt_outer_invariant(cfg, prod, hw):
@@ -310,16 +400,41 @@ def xor_invariant(cfg, impl, rports, ideal_rports, ideal, hw, transp):
     return H(False), H(True)
 
 
-def _patch_multiread():
+def _src_patch(cls, old, new):
+    """re-define cls.elaborate from its own source text with one expression replaced"""
     import inspect, textwrap
 
-    src = textwrap.dedent(inspect.getsource(M.MultiReadMemory.elaborate))
-    old = "[physical_write_port] if physical_write_port and write_port in port.transparent_for else []"
-    assert old in src
-    src = src.replace(old, "[physical_write_port] if physical_write_port and port.transparent_for else []")
-    ns = dict(M.__dict__)
-    exec(src, ns)
-    M.MultiReadMemory.elaborate = ns["elaborate"]
+    def patch():
+        src = textwrap.dedent(inspect.getsource(cls.elaborate))
+        assert src.count(old) == 1, (cls.__name__, old)
+        ns = dict(M.__dict__)
+        exec(src.replace(old, new), ns)
+        cls.elaborate = ns["elaborate"]
+
+    return patch
 
 
-CANARIES = []
+_base = {"gran": None, "init": "nonempty"}
+CANARIES = [
+    {"name": "multiread_transparency_of_every_port", "cfg": {**_base, "kind": "multiread", "depth": 3, "width": 2, "nr": 2, "nw": 1, "transp": "diag"},
+     "patch": _src_patch(M.MultiReadMemory, "physical_write_port and write_port in port.transparent_for else", "physical_write_port and port.transparent_for == () else"),
+     "expect": r"read\d\.data_equals|step\.inv"},
+    {"name": "xor_transparency_dropped", "cfg": {**_base, "kind": "xor", "depth": 3, "width": 2, "nr": 1, "nw": 2, "transp": "all"},
+     "patch": _src_patch(M.MultiportXORMemory, "if write_port in self.read_ports[idx].transparent_for:", "if False:"),
+     "expect": r"step\.inv\.H|read\d\.data_equals"},
+    {"name": "xor_second_bypass_stage_dropped", "cfg": {**_base, "kind": "xor", "depth": 3, "width": 2, "nr": 1, "nw": 2, "transp": "none"},
+     "patch": _src_patch(M.MultiportXORMemory, "(read_addr_bypass == write_addr_bypass) & read_en_bypass[idx] & write_en_bypass,", "Const(0),"),
+     "expect": r"step\.inv\.H|read\d\.data_equals"},
+    {"name": "xor_feedback_reads_own_address", "cfg": {**_base, "kind": "xor", "depth": 2, "width": 2, "nr": 1, "nw": 3, "transp": "none"},
+     "patch": _src_patch(M.MultiportXORMemory, "physical_read_port.addr.eq(self.write_ports[idx].addr)]", "physical_read_port.addr.eq(self.write_ports[index].addr)]"),
+     "expect": r"step\.inv|read\d\.data_equals"},
+    {"name": "ilvt_bypass_ignores_enable", "cfg": {**_base, "kind": "xor_ilvt", "depth": 3, "width": 2, "nr": 1, "nw": 2, "transp": "all"},
+     "patch": _src_patch(M.MultiportILVTMemory, "((write_addr_bypass[idx] == read_addr_bypass) & write_en_bypass[idx], write_data_bypass[idx])", "((write_addr_bypass[idx] == read_addr_bypass), write_data_bypass[idx])"),
+     "expect": r"step\.inv\.H|read\d\.data_equals"},
+    {"name": "onehot_feedback_not_inverted", "cfg": {**_base, "kind": "onehot_ilvt", "depth": 3, "width": 2, "nr": 1, "nw": 2, "transp": "none"},
+     "patch": _src_patch(M.OneHotCodedILVT, "~(m.submodules[f\"bank_{i}\"].read_ports[idx - 1].data[index - 1])", "(m.submodules[f\"bank_{i}\"].read_ports[idx - 1].data[index - 1])"),
+     "expect": r"step\.inv\.H|read\d\.data_equals"},
+    {"name": "onehot_feedback_reads_wrong_address", "cfg": {**_base, "kind": "onehot_ilvt", "depth": 3, "width": 2, "nr": 1, "nw": 3, "transp": "none"},
+     "patch": _src_patch(M.OneHotCodedILVT, "k = i + 1 if index < i + 1 else i", "k = i + 1 if index <= i + 1 and i + 1 < len(self.write_ports) else i"),
+     "expect": r"step\.inv\.H|read\d\.data_equals"},
+]
